@@ -102,14 +102,25 @@ class Prop:
     note: str = ""
 
 
+def d_c32(rng):
+    return rng.choice([0, 45720, 91440, -1, 2**31 - 1, -2**31, rng.randint(-2**31, 2**31 - 1), rng.randint(0, 10**6)])
+
+
+def d_spc(rng):
+    from pptx.util import Emu, Pt
+    return rng.choice([Pt(0), Pt(1584), Pt(12), Pt(rng.randint(0, 158400) / 100), Emu(rng.randint(0, 20116800))])
+
+
 def props():
+    from pptx.util import Emu, Pt
     action, chart, dml, shapes, text, lang = _enums()
     E = d_enum
     P = []
     add = lambda *a, **k: P.append(Prop(*a, **k))  # noqa: E731
     # -- presentation
-    add("prs", "slide_width", d_emu, none_ok=True, bad=d_bad_len)
-    add("prs", "slide_height", d_emu, none_ok=True, bad=d_bad_len)
+    d_slide = lambda r: r.choice([914400, 51206400, 9144000, 6858000, 12192000, r.randint(914400, 51206400)])  # noqa: E731
+    add("prs", "slide_width", d_slide, bad=lambda r: r.choice([914399, 51206401, 0, None, "9144000"]))
+    add("prs", "slide_height", d_slide, bad=lambda r: r.choice([914399, 51206401, 0, None, "9144000"]))
     # -- slide
     add("slide", "name", d_str)
     # -- any shape
@@ -135,14 +146,15 @@ def props():
     add("text_frame", "word_wrap", d_tri, none_ok=True)
     add("text_frame", "vertical_anchor", lambda r: E(r, text.MSO_ANCHOR, skip=("MIXED",)), none_ok=True)
     for n in ("margin_left", "margin_right", "margin_top", "margin_bottom"):
-        add("text_frame", n, d_emu, bad=lambda r: r.choice(["1", 2.5]))
+        add("text_frame", n, d_c32, bad=lambda r: r.choice(["1", 2.5, 2**31, -2**31 - 1]))
     add("text_frame", "text", d_text)
     # -- paragraph
     add("paragraph", "alignment", lambda r: E(r, text.PP_ALIGN, skip=("MIXED",)), none_ok=True)
     add("paragraph", "level", lambda r: r.randint(0, 8), bad=lambda r: r.choice([-1, 9, "1"]))
-    add("paragraph", "line_spacing", lambda r: r.choice([1.0, 1.5, 0.9, 2, d_pt(r)]), none_ok=True, quantum=1e-5 + 1e-9)
-    add("paragraph", "space_before", d_pt, none_ok=True)
-    add("paragraph", "space_after", d_pt, none_ok=True)
+    add("paragraph", "line_spacing", lambda r: r.choice([1.0, 1.5, 0.9, 2, 0.0, 132.0, r.uniform(0, 132), d_spc(r)]), none_ok=True, quantum=127,
+        bad=lambda r: r.choice([-0.5, 132.5, Emu(20116801), "1"]))
+    add("paragraph", "space_before", d_spc, none_ok=True, quantum=127, bad=lambda r: r.choice([Emu(20116801), Emu(-1), 1.5, "3"]))
+    add("paragraph", "space_after", d_spc, none_ok=True, quantum=127, bad=lambda r: r.choice([Emu(20116801), Emu(-1), 1.5, "3"]))
     add("paragraph", "text", d_text)
     # -- run
     add("run", "text", lambda r: d_str(r))
@@ -151,7 +163,7 @@ def props():
     add("font", "italic", d_tri, none_ok=True)
     add("font", "underline", lambda r: r.choice([True, False, None, E(r, text.MSO_UNDERLINE, skip=("MIXED",))]), none_ok=True,
         norm=lambda v: v)
-    add("font", "size", d_pt, none_ok=True, quantum=127, bad=lambda r: r.choice(["12", 12.5]))
+    add("font", "size", d_pt, none_ok=True, quantum=127, bad=lambda r: r.choice(["12", 12.5, Emu(0), Pt(4001), Pt(0.5)]))
     add("font", "name", lambda r: r.choice(["Calibri", "Arial Black", "MS ゴシック", d_str(r) or "A"]), none_ok=True)
     add("font", "language_id", lambda r: E(r, lang.MSO_LANGUAGE_ID, skip=("MIXED",)), none_ok=True)
     # -- line
@@ -170,7 +182,7 @@ def props():
     for n in ("first_row", "first_col", "last_row", "last_col", "horz_banding", "vert_banding"):
         add("table", n, d_bool)
     for n in ("margin_left", "margin_right", "margin_top", "margin_bottom"):
-        add("cell", n, d_emu, none_ok=True, bad=lambda r: r.choice(["1", 2.5]))
+        add("cell", n, d_c32, none_ok=True, bad=lambda r: r.choice(["1", 2.5, 2**31]))
     add("cell", "vertical_anchor", lambda r: E(r, text.MSO_ANCHOR, skip=("MIXED",)), none_ok=True)
     add("cell", "text", d_text)
     add("row", "height", d_emu)
@@ -206,10 +218,10 @@ def props():
     add("plot", "vary_by_categories", d_bool)
     add("datalabels", "number_format", lambda r: r.choice(["General", "0.00", "#,##0", "0%"]))
     add("datalabels", "number_format_is_linked", d_bool)
-    add("datalabels", "position", lambda r: E(r, chart.XL_LABEL_POSITION), none_ok=True)
+    add("datalabels", "position", lambda r: E(r, chart.XL_LABEL_POSITION, skip=("MIXED",)), none_ok=True, bad=lambda r: r.choice([chart.XL_LABEL_POSITION.MIXED, 99, "ctr"]))
     for n in ("show_category_name", "show_legend_key", "show_percentage", "show_series_name", "show_value"):
         add("datalabels", n, d_bool)
-    add("datalabel", "position", lambda r: E(r, chart.XL_LABEL_POSITION), none_ok=True)
+    add("datalabel", "position", lambda r: E(r, chart.XL_LABEL_POSITION, skip=("MIXED",)), none_ok=True, bad=lambda r: r.choice([chart.XL_LABEL_POSITION.MIXED, 99]))
     add("datalabel", "has_text_frame", d_bool)
     add("marker", "size", lambda r: r.randint(2, 72), none_ok=True, bad=lambda r: r.choice([1, 73, "5"]))
     add("marker", "style", lambda r: E(r, chart.XL_MARKER_STYLE), none_ok=True)
@@ -219,9 +231,10 @@ def props():
 
 
 def d_pt(rng):
-    from pptx.util import Pt
-    return Pt(rng.choice([0, 1, 12, 18.5, 400, rng.randint(0, 4000) / 10, 0.01 * rng.randint(0, 400000)])) if rng.random() < 0.8 else \
-        __import__("pptx.util", fromlist=["Emu"]).Emu(rng.randint(0, 5080000))
+    """font sizes: ST_TextFontSize is 100..400000 hundredths of a point"""
+    from pptx.util import Emu, Pt
+    return Pt(rng.choice([1, 12, 18.5, 400, 4000, rng.randint(10, 40000) / 10, 0.01 * rng.randint(100, 400000)])) if rng.random() < 0.8 else \
+        Emu(rng.randint(12700, 50800000))
 
 
 # ---------------------------------------------------------------------------------------------------------------
@@ -420,6 +433,10 @@ def discover(prs, last_only=False):
                 _walk_text_frame(w, ns.notes_text_frame, sp + ".notes_slide.notes_text_frame")
     for i, l in enumerate(prs.slide_layouts):
         w.add("layout", l, f"prs.slide_layouts[{i}]")
+        if i < 3:
+            w.add("background", l.background, f"prs.slide_layouts[{i}].background")
+    for i, m in enumerate(list(prs.slide_masters)[:2]):
+        w.add("background", m.background, f"prs.slide_masters[{i}].background")
     return w
 
 
@@ -442,7 +459,9 @@ def media():
 
 
 def _geom(rng):
-    return int(d_coord(rng)), int(d_coord(rng)), int(d_emu(rng)), int(d_emu(rng))
+    """position and size inside the slide-scale range (the out-of-range corner is probed separately, see C03)"""
+    g = lambda lo: rng.choice([0, 1, 914400, rng.randint(lo, 12192000), rng.randint(lo, 2**31 - 1)])  # noqa: E731
+    return g(-12192000), g(-12192000), g(0), g(0)
 
 
 def m_add_slide(rng, w):
